@@ -13,6 +13,7 @@ wt = f"/tmp/w{rnd}-{prop}"
 ORIGIN = {
     "4": "fourth round: written by an independent sub-agent that saw only the text of the property and a scratch worktree of /repo; the brief asked for two small, realistic maintenance defects (refactoring slip, off-by-one, wrong width or signedness, forgotten case, state not reset) and said nothing about the suite",
     "7": "seventh round (measurement after the suite was frozen): written by an independent sub-agent that saw only the text of the property and a scratch worktree of /repo; the brief asked for two small maintenance defects as different from each other as possible, in mechanisms that are not the most obvious anchors, and said nothing about the suite",
+    "9": "ninth round: written by an independent sub-agent that saw only the text of the property (statement, quantifier, anchors) and a scratch worktree of /repo; the brief said nothing about the suite and asked for m1 = two cooperating edits at different sites that each leave the property intact alone and break it together, and m2 = a change that manifests only in a second-or-later use (after an earlier execution / Err / re-compile / reload on the same VM object) or under a precise combination (one VM kind with one engine, one register with one operand size, one position in the program, an exact unusual boundary, a combination of spelling features)",
     "6": "sixth round: written by an independent sub-agent that saw only the text of the property and a scratch worktree of /repo; the brief asked for m1 = an ordinary maintenance defect in a less obvious part of the property's scope and m2 = a defect that only shows under a particular usage pattern of the API (less common entry point or VM struct, second use, unusual order of calls, features combined, state after an Err), and said nothing about the suite",
 }[rnd]
 for m, needs, caught, status in (("m1", n1, c1, st1), ("m2", n2, c2, st2)):
